@@ -41,13 +41,13 @@ def plan(tier, seed):
     P = Plan(14, seed)
     quick = tier == "quick"
     rng = P.rng("lls")
-    for i in range(330 if quick else 5000):
+    for i in range(300 if quick else 5000):
         proxg = pick(rng, ["none", "l1", "l2", "box"])
         G = pick(rng, ["none", "none", "square", "tall", "fd"])
-        Akind = pick(rng, ["tall", "tall", "square", "identity", "diag", "fftdiag"])
+        Akind = pick(rng, ["tall", "tall", "square", "identity", "diag", "fftdiag", "fft"])
         if proxg == "box":
             G = "none"
-            if Akind == "fftdiag":       # box constraints are only defined for real data
+            if Akind in ("fftdiag", "fft"):   # box constraints are only defined for real data
                 Akind = "diag"
         P.add("lls", n=int(rng.integers(2, 8)), A=Akind,
               cplx=bool(proxg != "box" and rng.random() < 0.5),
@@ -94,6 +94,11 @@ def run_case(case):
         xshape = [n]
         A = L.Multiply(xshape, (0.3 + rng.random(n)).astype(dt) * (
             np.exp(1j * rng.random(n)) if cplx else 1))
+    elif kindA == "fft":
+        xshape = [n]
+        A = L.FFT(xshape)                 # A.N is the Identity shortcut
+        cplx = True
+        dt = np.complex128
     else:
         xshape = [n]
         A = L.FFT(xshape) * L.Multiply(xshape, (0.3 + rng.random(n)).astype(dt))
@@ -260,6 +265,48 @@ def run_case(case):
                         "distance to the reference minimiser %.3g" % (
                             gap, phis, obs["gap_rel"], tol, eff, app.alg.iter, obs["dist"]),
                         wit, mech="suboptimal:" + eff, obs=obs)
-    r = held(sig, {k: v for k, v in obs.items() if k != "y_unchanged"}, 1)
+    checks = 1
+    if sum(case["rs"]) % 5 == 0 and eff in ("GradientMethod", "PrimalDualHybridGradient",
+                                             "ConjugateGradient"):
+        # the same operator objects (A, G, proxg) in a second problem with a much larger
+        # lamda and defaulted step sizes: nothing computed for the first problem (operator
+        # norms, step sizes) may be carried over
+        lam2 = 10.0 * lam + 2.0
+        kw2 = dict(kw)
+        kw2.update(lamda=lam2)
+        for key in ("alpha", "tau", "sigma", "x", "P"):
+            kw2.pop(key, None)
+        if G is None:
+            xref2, cert2 = OPT.solve_composite(Am, yv, g, mu=lam2, z=zv)
+            low2 = OPT.objective(Am, yv, g, xref2, mu=lam2, z=zv)
+            okref = cert2 <= 1e-10
+        else:
+            xref2, p2, low2 = OPT.solve_with_G(Am, yv, Gm, g, lam=lam2, z=zv)
+            okref = p2 - low2 <= 1e-9 * max(1.0, abs(p2))
+        if okref:
+            y2 = yv.reshape(y.shape).copy()
+            try:
+                xr2 = sp.app.LinearLeastSquares(A, y2, **kw2).run()
+            except Exception as e:
+                inn = e
+                while inn.__cause__ is not None:
+                    inn = inn.__cause__
+                return violated(sig, "second solve on the same operator objects (lamda %.3g -> "
+                                "%.3g) raised %s: %s" % (lam, lam2, type(inn).__name__,
+                                                         str(inn)[:150]), wit,
+                                mech="reuse-raised:" + eff)
+            x2 = xr2.ravel()
+            val2 = 0.5 * float(np.sum(np.abs(Am @ x2 - yv) ** 2)) + lam2 / 2 * float(
+                np.sum(np.abs(x2 - (0 if zv is None else zv)) ** 2)) + OPT.g_value(
+                    g, (Gm @ x2) if Gm is not None else x2)
+            gap2 = (val2 - low2) / max(1.0, abs(low2))
+            checks += 1
+            obs["reuse_gap_rel"] = gap2
+            if not (np.all(np.isfinite(x2)) and gap2 <= tol):
+                return violated(sig, "a second LinearLeastSquares on the same operator objects "
+                                "with lamda %.3g (after lamda %.3g) misses its optimum by %.3g "
+                                "(relative; solver %s)" % (lam2, lam, gap2, eff), wit,
+                                mech="reuse-suboptimal:" + eff, obs=obs)
+    r = held(sig, {k: v for k, v in obs.items() if k != "y_unchanged"}, checks)
     r["tags"] = ["solver:" + eff] + ([] if obs["y_unchanged"] else ["caller-y-modified"])
     return r
